@@ -167,9 +167,15 @@ const RECORDER: &str = r#"#!/bin/sh
 # recorder child: dumps SAMEDEC_* and stdin; prints nothing
 d="$1"
 n=$(ls "$d" | grep -c '\.env$')
+date +%s%N > "$d/child$n.start"
 env | grep '^SAMEDEC_' | sort > "$d/child$n.env.tmp"
 cat > "$d/child$n.bin"
 mv "$d/child$n.env.tmp" "$d/child$n.env"
+# optional third argument: keep running for a while after stdin was closed (samedec must wait for us)
+[ "$3" = linger ] && sleep 0.25
+date +%s%N > "$d/child$n.end"
+# optional second argument: exit status (a child that did its job and still reports failure)
+exit ${2:-0}
 "#;
 
 const FAULTY: &str = r#"#!/bin/sh
@@ -338,6 +344,16 @@ pub fn run_app(ctx: &Ctx) {
             args.push("/bin/sh".into());
             args.push(recorder.to_string_lossy().into_owned());
             args.push(cdir.to_string_lossy().into_owned());
+            // every other child-using case: the recorder reads everything and then exits with status 3
+            // (what samedec prints must not depend on the child's exit status)
+            if i % 4 == 3 {
+                args.push("3".into());
+                out.count("child_exit_status:3");
+            } else {
+                args.push("0".into());
+                args.push("linger".into());
+                out.count("child_exit_status:0,lingers_250ms_after_stdin_closes");
+            }
         }
         let clock = || {
             use chrono::Datelike;
@@ -387,6 +403,30 @@ pub fn run_app(ctx: &Ctx) {
                 out.count("env_skipped_date_changed");
             }
             k += 1;
+        }
+        // "samedec waits for the child before continuing": every child had finished when samedec exited, and no
+        // child started before its predecessor had finished (start/end stamps written by the recorder itself)
+        if with_child {
+            let stamp = |k: usize, what: &str| -> Option<u128> { std::fs::read_to_string(cdir.join(format!("child{}.{}", k, what))).ok().and_then(|t| t.trim().parse().ok()) };
+            let mut verdict = "ok".to_owned();
+            for j in 0..k {
+                match (stamp(j, "start"), stamp(j, "end")) {
+                    (Some(_), None) => {
+                        verdict = format!("child_{}_still_running_when_samedec_exited", j);
+                        break;
+                    }
+                    (Some(_), Some(e)) => {
+                        if let Some(s2) = stamp(j + 1, "start") {
+                            if s2 < e {
+                                verdict = format!("child_{}_started_{}_ms_before_child_{}_had_finished", j + 1, (e - s2) / 1_000_000, j);
+                                break;
+                            }
+                        }
+                    }
+                    _ => {}
+                }
+            }
+            out.spec(&format!("spec.c12.wait [{}] => {}", label, verdict));
         }
         let minput = model_input(&rec, &live, &flushed);
         let op = format!("app.run {} quiet={} child={} spawn=1", minput, quiet as u8, with_child as u8);
